@@ -26,7 +26,7 @@ func init() {
 			{Fn: "H_mw", Params: n(5), Tier: "thorough", Reach: []string{"end"}},
 		},
 		Rule:        rule + "; H_step is the inductive step from an arbitrary state satisfying the representation invariant (covers histories of any length), H_hist enumerates all operation sequences of length k from the initial state with symbolic status codes/payloads",
-		Assumptions: []string{"status codes in [100,999] (net/http's own precondition)", "recorder commits on first Write like net/http", "cookie() is modelled by its effect on the live header map (Header().Set), http.SetCookie's formatting is not executed"},
+		Assumptions: []string{"status codes in [100,999] (net/http's own precondition)", "recorder commits on first Write like net/http"},
 		Outside:     []string{"SendFile, Hijack, Flush, response formatter closures", "script-level argument conversion of the ResponseWriter*Method wrappers", "histories longer than 4 outside the inductive argument"},
 	})
 
@@ -56,7 +56,7 @@ func init() {
 		ID:  "C02",
 		Pkg: "verif/harness/c02",
 		Runs: []RunDef{c02("H_for_nested"), c02("H_while_nested"), c02("H_foreach"), c02("H_switch_in_for"), c02("H_func_defaults"), c02("H_static_counter"),
-			c02("H_locals_isolated"), c02("H_if_chain"), c02("H_match"), c02("H_counter_escapes"), c02("H_return_from_loop")},
+			c02("H_locals_isolated"), c02("H_if_chain"), c02("H_match"), c02("H_counter_escapes"), c02("H_return_from_loop"), c02("H_repeated_statements")},
 		Rule:        rule + "; each template is parsed by the real parser on every path and run by the real evaluators with symbolic loop limits/trigger indexes in [-1,3] (unbounded ints where no loop depends on them); exit statement kind and level are enumerated by solver-driven case split; the oracle is the same algorithm in Go executed in the same path",
 		Assumptions: []string{"switch fall-through into the next case and a bare 'continue' directly inside switch are not asserted (docs are silent / PHP-specific)"},
 		Outside:     []string{"programs outside the 11 templates", "loop counts > 3, nesting depth > 2", "generators, goto, strings in conditions"},
@@ -170,9 +170,10 @@ func init() {
 		ID:  "C20",
 		Pkg: "verif/harness/c20",
 		Runs: []RunDef{
-			{Fn: "H_order", Fuel: 30_000_000, Tier: "quick", Reach: []string{"end"}},
-			{Fn: "H_ordered_map", Params: k(3), Tier: "quick", Reach: []string{"end"}},
-			{Fn: "H_ordered_map", Params: k(4), Tier: "thorough", Reach: []string{"end"}},
+			{Fn: "H_order", Fuel: 30_000_000, Tier: "quick", Reach: []string{"end"}, NativeRepeat: 300},
+			{Fn: "H_ordered_map", Params: k(3), Tier: "quick", Reach: []string{"end"}, NativeRepeat: 300},
+			{Fn: "H_ordered_map", Params: k(4), Tier: "quick", Reach: []string{"end"}, NativeRepeat: 300},
+			{Fn: "H_ordered_map", Params: k(5), Tier: "thorough", Reach: []string{"end"}, NativeRepeat: 300},
 			{Fn: "H_pairs", Fuel: 30_000_000, Tier: "quick", Reach: []string{"end"}},
 		},
 		Rule:        rule + "; Go's map iteration order is the adversary and is made a symbolic choice: every range over a Go map with 2..3 entries executed inside origami code (up to 4 such ranges per path) takes its order from a fresh symbolic permutation, all orders are explored as sibling paths, and the output must equal the insertion-order run of the same template in the same path; OrderedMap Set/Delete histories against a slice model; all ordered pairs (A then B vs B alone) of the templates on fresh VMs in one engine process",
@@ -260,7 +261,8 @@ func init() {
 			c01("H_lex", map[string]int{"n": 2, "ctx": 0}, "quick", "lexed"),
 			c01("H_parse", map[string]int{"n": 2, "ctx": 0}, "quick", "parsed"),
 			c01("H_snip", n(0), "quick", "parsed", "accepted", "rejected", "ran"),
-			c01("H_snip", map[string]int{"n": 1, "lo": 0, "hi": 6}, "quickonly", "parsed", "accepted", "rejected", "ran"),
+			c01("H_snip", map[string]int{"n": 1, "lo": 0, "hi": 3}, "quickonly", "parsed", "accepted", "rejected", "ran"),
+			c01("H_snip", map[string]int{"n": 1, "lo": 26, "hi": 29}, "quickonly", "parsed", "accepted", "rejected", "ran"),
 			c01("H_snip", n(1), "thorough", "parsed", "accepted", "rejected", "ran"),
 			c01("H_lex", n(2), "thorough", "lexed"), c01("H_lex_template", n(2), "thorough", "lexed"),
 			c01("H_parse", n(2), "thorough", "parsed"),
@@ -277,6 +279,8 @@ func init() {
 		Runs: []RunDef{
 			c01("H_lex_spans", n(0), "quick", "lexed"), c01("H_lex_spans", n(1), "quick", "lexed"),
 			c01("H_lex_spans", map[string]int{"n": 2, "ctx": 0}, "quick", "lexed"),
+			c01("H_lex_spans_mid", n(0), "quick", "lexed"), c01("H_lex_spans_mid", n(1), "quick", "lexed"), c01("H_lex_spans_mid", n(2), "quick", "lexed"),
+			c01("H_lex_spans_mid", n(3), "thorough", "lexed"),
 			c01("H_lex_spans", n(2), "thorough", "lexed"),
 		},
 		Rule:    rule + "; span laws asserted on every token of the real Tokenize output for opener ‖ symbolic window: 0<=Start<=End<=len, ordered/non-overlapping, Line = number of '\\n' before Start (sum of ite terms over symbolic bytes), Literal = src[Start:End] for identifier/number/variable tokens",
